@@ -1,4 +1,4 @@
-"""Scripted workflow bodies for C18.  The script is a list of operations: "random" | "time" | "uuid" | ["sub", x]."""
+"""Scripted workflow bodies for C18.  The script is a list of operations: "random" | "time" | "uuid" | ["sub", x] | ["sub2", x] | ["child", script, fail_until]."""
 RECORD = {}     # (workflow_id, invocation_id, attempt) -> [[op, value], ...]   (in-process runs)
 ATTEMPT = {}    # invocation id -> executions so far
 HOOK = [None]
@@ -33,9 +33,18 @@ def leaf2(x=0):
 
 def scripted(script, fail_until=0, tag=""):
     """Executes the wf operations in order, records what it observed; raises RetryError on attempts <= fail_until."""
+    return _run_script("scripted", script, fail_until)
+
+
+def scripted_child(script, fail_until=0, tag=""):
+    """the same body registered with force_new_workflow=True: called from a workflow it starts a workflow of its own (whose parent is the caller's)"""
+    return _run_script("scripted_child", script, fail_until)
+
+
+def _run_script(me_name, script, fail_until):
     from pynenc.exceptions import RetryError
     inv = _cur()
-    me = _task("scripted")
+    me = _task(me_name)
     n = ATTEMPT.get(inv.invocation_id, 0) + 1
     ATTEMPT[inv.invocation_id] = n
     wid = inv.workflow.workflow_id
@@ -51,6 +60,9 @@ def scripted(script, fail_until=0, tag=""):
             seen.append(["time", me.wf.utc_now().isoformat()])
         elif op == "uuid":
             seen.append(["uuid", me.wf.uuid()])
+        elif op[0] == "child":
+            _task("scripted_child")(op[1], op[2], "child")      # a plain call: started, not awaited
+            seen.append(["child", len(op[1])])
         else:
             which = "leaf" if op[0] == "sub" else "leaf2"
             sub = me.wf.execute_task(_task(which), op[1])
